@@ -75,6 +75,7 @@ Definition sp_step (s : sst) (o : op) : sst * out :=
   | Len => (s, OLen (sp_len (ss s)))
   | Time => (s, OTime (s_tcur (ss s)))
   | Peek => (s, sp_peek (ss s))
+  | Check => (s, OInv [1; 1; 1; 1; 1])   (* the representation invariant always holds *)
   end.
 
 Fixpoint sp_run_from (s : sst) (ops : list op) : sst * list out :=
